@@ -3,7 +3,7 @@ loop body, delta, kappa, the phasePlotRegion cascade) translated by pyexpr, plus
 literal lists/constants the models depend on."""
 import ast
 from .common import *
-from .pyexpr import Sym, QBackend, FloatBackend
+from .pyexpr import Sym, QBackend, FloatBackend, ZBackend
 from .strsym import translate_deltamax
 
 SRC = 'localcider/backend/sequence.py'
@@ -230,6 +230,94 @@ def generate(repo):
         return 'Definition g_aadict_keys : list aa := %s.\nDefinition g_mean_shapes_ok : bool := true.' % coq_list(
             [coq_aa1(k) for k, _ in keys])
     out.add('g_mean_formulas', mean_formulas)
+
+    # ---- sliding-window profiles
+    WIN = [('linearDistOfNCPR', 'ncpr', 'blobncpr'), ('linearDistOfFCR', 'fcr', 'blobfcr'),
+           ('linearDistOfSigma', 'sigma', 'blobsig'), ('linearDistOfHydropathy', 'hydro', 'blobhydro'),
+           ('linearDenistyOfAAs', 'density', 'blob_density')]
+
+    def window(fn, tag, lst):
+        f = S(fn)
+        body = strip_doc(f.body)
+        src = [ast.unparse(x) for x in body]
+        guard = src[0] == 'self.__check_window_to_length(bloblen)'
+        zat = {'self.len': 'N', 'bloblen': 'w', 'int(bloblen / 2)': '(Z.div w 2)'}
+        pro = [x for x in body if isinstance(x, (ast.Assign, ast.If)) and
+               ast.unparse(x).split(' ')[0] in ('nblobs', 'flank', 'if')][:3]
+        need([ast.unparse(x).split(' ')[0] for x in pro] == ['nblobs', 'flank', 'if'], fn + ': flank prologue')
+        fs = Sym(ZBackend(), zat).block_result(pro, {}, 'flank_start')
+        fe = Sym(ZBackend(), zat).block_result(pro, {}, 'flank_end')
+        nb = Sym(ZBackend(), zat).block_result(pro[:1], {}, 'nblobs')
+        need(src[-1] == 'return np.vstack((np.arange(1, self.len + 1), [0] * flank_start + %s + [0] * flank_end))' % lst,
+             fn + ': return shape: ' + src[-1][:80])
+        need(any(x == '%s = [0] * nblobs' % lst for x in src), fn + ': result list initialisation')
+        loops = [x for x in body if isinstance(x, ast.For)]
+        lp = loops[-1]
+        need(ast.unparse(lp.iter) == 'np.arange(0, nblobs)' and ast.unparse(lp.target) == 'i', fn + ': window loop range')
+        stm = list(lp.body)
+        srcs = {'ncpr': 'self.chargePattern', 'fcr': 'self.chargePattern', 'sigma': 'self.chargePattern',
+                'hydro': 'hydrochain', 'density': 'target_seq'}[tag]
+        need(ast.unparse(stm[0]) == 'blob = %s[i:i + bloblen]' % srcs, fn + ': blob slice: ' + ast.unparse(stm[0]))
+        env = {'bloblen': 'w'}
+        rest = []
+        for x in stm[1:]:
+            u = ast.unparse(x)
+            if u == 'bpos = len(np.where(blob > 0)[0])':
+                env['bpos'] = 'bpos'
+            elif u == 'bneg = len(np.where(blob < 0)[0])':
+                env['bneg'] = 'bneg'
+            else:
+                rest.append(x)
+        last = rest[-1]
+        need(isinstance(last, ast.Assign) and ast.unparse(last.targets[0]) == '%s[i]' % lst, fn + ': result store')
+        fin = ast.Assign(targets=[ast.Name(id='result__', ctx=ast.Store())], value=last.value)
+        if tag in ('hydro', 'density'):
+            env['blobsum'] = 'blobsum'
+            val = Sym(qb, {'sum(blob)': 'blobsum'}).block_result(rest[:-1] + [fin], env, 'result__')
+            params = '(blobsum w : Q)'
+        else:
+            need('bpos' in env and 'bneg' in env, fn + ': blob counts')
+            val = Sym(qb, {}).block_result(rest[:-1] + [fin], env, 'result__')
+            params = '(bpos bneg w : Q)'
+        extra = ''
+        if tag == 'hydro':
+            need('KDU = aminoacids.get_KD_uversky()' in src and
+                 any(x.split() == 'for i in self.seq:     hydrochain.append(KDU[aminoacids.ONE_TO_THREE[i]])'.split() for x in src),
+                 fn + ': hydrochain construction')
+        if tag == 'density':
+            need(any(x.split() == ('for res in self.seq:     if res in targetAAs:         target_seq.append(1.0)     '
+                                   'else:         target_seq.append(0.0)').split() for x in src), fn + ': target_seq construction')
+        return ('Definition g_%s_guard : bool := %s.\n' % (tag, 'true' if guard else 'false') +
+                _defn('g_%s_nblobs' % tag, '(N w : Z)', 'Z', nb) + '\n' +
+                _defn('g_%s_flank_start' % tag, '(N w : Z)', 'Z', fs) + '\n' +
+                _defn('g_%s_flank_end' % tag, '(N w : Z)', 'Z', fe) + '\n' +
+                _defn('g_%s_value' % tag, params, 'Q', val))
+    for fn, tag, lst in WIN:
+        out.add('g_window_' + tag, lambda fn=fn, tag=tag, lst=lst: window(fn, tag, lst))
+
+    def window_guard():
+        f = find_func(tree, '__check_window_to_length', 'Sequence')
+        body = strip_doc(f.body)
+        need(len(body) == 1 and isinstance(body[0], ast.If) and len(body[0].body) == 1
+             and isinstance(body[0].body[0], ast.Raise) and not body[0].orelse, '__check_window_to_length shape')
+        t = Sym(ZBackend(), {'len(self.seq)': 'N', 'bloblen': 'w'}).test(body[0].test, {})
+        return _defn('g_window_rejected', '(N w : Z)', 'bool', t)
+    out.add('g_window_rejected', window_guard)
+
+    def compositions():
+        f = S('linearCompositions')
+        src = ast.unparse(f)
+        grps = []
+        for n in ast.walk(f):
+            if isinstance(n, ast.Call) and ast.unparse(n.func) == 'grps.append':
+                grps.append(coq_list([coq_aa1(c) for c in str_list(n.args[0])]))
+        need(len(grps) >= 1, 'default groups')
+        for frag in ['if len(grps) > 0:', 'sanitized_groups.append(self.__parse_group(group))', 'grps = sanitized_groups',
+                     'tmp = self.linearDenistyOfAAs(bloblen, grps[0])', 'density = tmp[1]',
+                     'for group in grps[1:]:', 'density = np.vstack((density, tmp[1]))', 'return (tmp[0], density)']:
+            need(frag in src, 'linearCompositions: missing `%s`' % frag)
+        return 'Definition g_default_groups : list (list aa) := %s.' % coq_list(grps)
+    out.add('g_default_groups', compositions)
 
     # ---- Omega, Omega_seq, kappa_X, __parse_group
     def omega():
